@@ -196,6 +196,10 @@ pub struct ReadFaults {
     /// call from then on fails once
     #[serde(default)]
     pub hard: Option<(u32, u32)>,
+    /// error kind of the F10 fault: 0 = Other, 1 = TimedOut, 2 = WouldBlock, 3 = ConnectionReset (what a retry
+    /// wrapper would call transient)
+    #[serde(default)]
+    pub hard_kind: u8,
 }
 
 #[derive(Clone, Debug, PartialEq, Serialize, Deserialize)]
